@@ -16,8 +16,12 @@
      <P> <seed> <adversary> <dataseed> <pathkind> <init> F <nf> {<rank> <fn> <k> <errno> <short>}*nf OPS <nops> op...
        pathkind 0: regular path in the scratch directory   1: path inside a missing directory   2: path is a directory
        init     `-` file absent, `=` empty file, else hex of the initial content
+       pathkind 3: the path is a named pipe (FIFO) whose read end the harness holds open (glibc's fopen (.., "ab") on it
+                   succeeds and leaves errno = ESPIPE); the file is reported as `fifo`
        fault    the k-th call (from 0) of stdio function fn (0 fopen 1 fwrite 2 fread 3 fseek 4 ftell 5 fflush 6 fclose) that
-                rank `rank` makes on the scenario's file fails with `errno` after transferring `short` items
+                rank `rank` makes on the scenario's file fails with `errno` after transferring `short` items;
+                short = -1: "success with errno noise" - the call is performed normally and, if it succeeds, errno is set to
+                `errno` afterwards (a legal freedom of the C library)
        op       o <amode>                                   sc_io_open (collective)      amode 0 read 1 create 2 append
                 c                                           sc_io_close (collective)
                 W <tsize> <opid> {<off> <count>}*P          sc_io_write_at_all           rank q: count elements at byte offset off
@@ -44,6 +48,7 @@
 #include <sys/stat.h>
 #include <unistd.h>
 #include <fcntl.h>
+#include <setjmp.h>
 #ifdef C12_SIMIO
 #define C12_SIM
 #endif
@@ -71,6 +76,7 @@ static struct
   fault_t             faults[MAXF];
   int                 nf;
   int                 calls[MAXR][32];
+  int                 fifo_rd;          /* pathkind 3: read end of the named pipe, -1 otherwise */
   int                 mopen;            /* C12_SIMIO: MPI file handles currently open (all ranks) */
   FILE               *tracked[MAXT];
   int                 ntracked, nfopen, nfclose;
@@ -121,6 +127,8 @@ next_fault (int fn)
   return NULL;
 }
 
+#define IS_NOISE(ft) ((ft) != NULL && (ft)->shortn == -1)
+
 static void
 emit (const char *text)
 {
@@ -153,7 +161,7 @@ __wrap_fopen (const char *path, const char *mode)
   int                 e;
   char                buf[256];
   ++G.nfopen;
-  if (ft) {
+  if (ft && !IS_NOISE (ft)) {
     e = ft->err;
   }
   else {
@@ -161,6 +169,8 @@ __wrap_fopen (const char *path, const char *mode)
     e = errno;
     if (f != NULL && G.ntracked < MAXT)
       G.tracked[G.ntracked++] = f;
+    if (f != NULL && IS_NOISE (ft))
+      e = ft->err;
   }
   snprintf (buf, sizeof buf, "io fopen %s -> %d %d", mode[0] ? mode : "EMPTY", f != NULL, e);
   emit (buf);
@@ -177,7 +187,7 @@ __wrap_fwrite (const void *p, size_t s, size_t n, FILE * f)
   size_t              r, dump = s * n;
   int                 e;
   if (ft) {
-    size_t              m = (size_t) ft->shortn < n ? (size_t) ft->shortn : n;
+    size_t              m = (!IS_NOISE (ft) && (size_t) ft->shortn < n) ? (size_t) ft->shortn : n;
     r = m ? __real_fwrite (p, s, m, f) : 0;
     e = ft->err;
   }
@@ -206,7 +216,7 @@ __wrap_fread (void *p, size_t s, size_t n, FILE * f)
   size_t              r;
   int                 e;
   if (ft) {
-    size_t              m = (size_t) ft->shortn < n ? (size_t) ft->shortn : n;
+    size_t              m = (!IS_NOISE (ft) && (size_t) ft->shortn < n) ? (size_t) ft->shortn : n;
     r = m ? __real_fread (p, s, m, f) : 0;
     e = ft->err;
   }
@@ -232,13 +242,13 @@ __wrap_fseek (FILE * f, long off, int whence)
   const fault_t      *ft = next_fault (3);
   int                 r, e;
   char                buf[128];
-  if (ft) {
+  if (ft && !IS_NOISE (ft)) {
     r = -1;
     e = ft->err;
   }
   else {
     r = __real_fseek (f, off, whence);
-    e = errno;
+    e = (r == 0 && IS_NOISE (ft)) ? ft->err : errno;
   }
   snprintf (buf, sizeof buf, "io fseek %ld %d -> %d %d", off, whence, r, e);
   emit (buf);
@@ -255,13 +265,13 @@ __wrap_ftell (FILE * f)
   long                r;
   int                 e;
   char                buf[128];
-  if (ft) {
+  if (ft && !IS_NOISE (ft)) {
     r = -1;
     e = ft->err;
   }
   else {
     r = __real_ftell (f);
-    e = errno;
+    e = (r >= 0 && IS_NOISE (ft)) ? ft->err : errno;
   }
   snprintf (buf, sizeof buf, "io ftell -> %ld %d", r, e);
   emit (buf);
@@ -279,7 +289,11 @@ __wrap_fflush (FILE * f)
   char                buf[128];
   r = __real_fflush (f);
   e = errno;
-  if (ft) {
+  if (IS_NOISE (ft)) {
+    if (r == 0)
+      e = ft->err;
+  }
+  else if (ft) {
     r = EOF;
     e = ft->err;
   }
@@ -301,7 +315,11 @@ __wrap_fclose (FILE * f)
   untrack (f);
   r = __real_fclose (f);
   e = errno;
-  if (ft) {
+  if (IS_NOISE (ft)) {
+    if (r == 0)
+      e = ft->err;
+  }
+  else if (ft) {
     r = EOF;
     e = ft->err;
   }
@@ -729,6 +747,12 @@ prepare_file (scen_t * sc, const char *dir)
     snprintf (G.path, sizeof G.path, "%s", dir);
   else
     snprintf (G.path, sizeof G.path, "%s", sub);
+  G.fifo_rd = -1;
+  if (sc->pathkind == 3) {
+    remove (G.path);
+    if (mkfifo (G.path, 0600) == 0)
+      G.fifo_rd = open (G.path, O_RDWR | O_NONBLOCK);   /* both ends: no fopen blocks */
+  }
   if (sc->pathkind == 0) {
     remove (G.path);
     if (strcmp (sc->init, "-") != 0) {
@@ -753,6 +777,10 @@ print_file (FILE * outf, scen_t * sc)
   }
   if (S_ISDIR (st.st_mode)) {
     fprintf (outf, "OUT F dir\n");
+    return;
+  }
+  if (S_ISFIFO (st.st_mode)) {
+    fprintf (outf, "OUT F fifo\n");
     return;
   }
   if ((long long) st.st_size > BIGFILE) {
@@ -845,6 +873,16 @@ parse_scenario (char *line, scen_t * sc)
   return 1;
 }
 
+#ifdef C12_SERIAL
+/* SC_ABORT in the serial configuration: back to the scenario loop (the simulated MPI has its own abort handler) */
+static jmp_buf      serial_abort_jmp;
+static void
+serial_abort_handler (void)
+{
+  longjmp (serial_abort_jmp, 1);
+}
+#endif
+
 #ifndef C12_REALMPI
 int
 main (void)
@@ -856,6 +894,9 @@ main (void)
   sc_init (sc_MPI_COMM_NULL, 0, 0, NULL, SC_LP_SILENT);
 #ifdef C12_SIM
   sc_set_abort_handler (simmpi_abort_handler);
+#endif
+#ifdef C12_SERIAL
+  sc_set_abort_handler (serial_abort_handler);
 #endif
   snprintf (tpath, sizeof tpath, "%s/c12trace.%d.jsonl", dir, (int) getpid ());
   while (fgets (line, sizeof line, stdin)) {
@@ -889,9 +930,14 @@ main (void)
 #else
     /* serial: the logical ranks take turns operation by operation, each with its own handle; an
        open/close is performed once (by logical rank 0) because there is one process */
-    printf ("RUN %d rc=0 steps=0\n", run);
-    G.evout = stdout;
-    {
+    /* the stdio events are collected and printed behind the RUN line, whose code tells whether the scenario aborted */
+    char               *evbuf = NULL;
+    size_t              evlen = 0;
+    G.evout = open_memstream (&evbuf, &evlen);
+    if (setjmp (serial_abort_jmp) != 0) {
+      rc = 4;
+    }
+    else {
       sc_MPI_File         file = sc_MPI_FILE_NULL;
       int                 opened = 0;
       for (int i = 0; i < sc.nops; ++i) {
@@ -908,6 +954,16 @@ main (void)
       G.lrank = 0;
     }
     G.active = 0;
+    G.lrank = 0;
+    __real_fclose (G.evout);
+    G.evout = NULL;
+    printf ("RUN %d rc=%d steps=0\n", run, rc);
+    if (rc)
+      printf ("REPORT SC_ABORT in the serial configuration\n");
+    if (evbuf) {
+      fputs (evbuf, stdout);
+      free (evbuf);
+    }
 #endif
     for (int q = 0; q < sc.P; ++q)
       for (int i = 0; i < sc.nops; ++i)
@@ -930,7 +986,9 @@ main (void)
     printf ("TRACE-END\n");
 #endif
     printf ("END %d mem=%d\n", run, sc_memory_status (sc_package_id) - mem0);
-    if (sc.pathkind == 0)
+    if (G.fifo_rd >= 0)
+      close (G.fifo_rd);
+    if (sc.pathkind == 0 || sc.pathkind == 3)
       remove (G.path);
     for (int q = 0; q < sc.P; ++q) {
       for (int i = 0; i < sc.nops; ++i)
